@@ -35,38 +35,73 @@ def entry (o : Oid) (t : Txn) : Option (Tid × Rec) := (t.recOf o).map (fun r =>
 
 theorem recsOf_eq_filterMap (h : History) (o : Oid) : recsOf h o = h.filterMap (entry o) := rfl
 
+theorem copyPreTxn_some {keep : Tid → Oid → Bool} {t t' : Txn} (h : copyPreTxn keep t = some t') :
+    t'.tid = t.tid ∧ t'.packed = true ∧ t'.mlen = t.mlen ∧ t'.mdata = t.mdata ∧
+      t'.recs = ((dedupLast t.recs).filter (fun r => keep t.tid r.oid)).map packRec ∧
+      (dedupLast t.recs).filter (fun r => keep t.tid r.oid) ≠ [] := by
+  unfold copyPreTxn at h
+  simp only at h
+  split at h
+  · cases h
+  · rename_i hne
+    injection h with h; subst h
+    refine ⟨rfl, rfl, rfl, rfl, rfl, ?_⟩
+    intro hc; apply hne; simp [hc]
+
+theorem copyPreTxn_none {keep : Tid → Oid → Bool} {t : Txn} (h : copyPreTxn keep t = none) :
+    (dedupLast t.recs).filter (fun r => keep t.tid r.oid) = [] := by
+  unfold copyPreTxn at h
+  simp only at h
+  split at h
+  · rename_i hemp; exact List.isEmpty_iff.1 hemp
+  · cases h
+
+theorem copyPre_recs_nodup {keep : Tid → Oid → Bool} {t : Txn} :
+    OidNodup (((dedupLast t.recs).filter (fun r => keep t.tid r.oid)).map packRec) :=
+  oidNodup_map (fun _ => rfl) (oidNodup_filter _ (dedupLast_nodup _))
+
+theorem copyPreTxn_recOf {keep : Tid → Oid → Bool} {t t' : Txn} (h : copyPreTxn keep t = some t')
+    (o : Oid) : t'.recOf o = if keep t.tid o then (t.recOf o).map packRec else none := by
+  obtain ⟨_, _, _, _, er, _⟩ := copyPreTxn_some h
+  unfold Txn.recOf
+  rw [er, dedupLast_of_nodup copyPre_recs_nodup, find?_oid_map_packRec,
+    find?_filter_oid (keep t.tid)]
+  split <;> rfl
+
 theorem copyPreTxn_entry (keep : Tid → Oid → Bool) (t : Txn) (o : Oid) :
     (copyPreTxn keep t).bind (entry o) =
       ((entry o t).filter (fun x => keep x.1 o)).map tagPack := by
-  unfold copyPreTxn entry
-  simp only
-  split
-  · rename_i hemp
+  cases hc : copyPreTxn keep t with
+  | none =>
+    have hemp := copyPreTxn_none hc
+    unfold entry
     cases hr : t.recOf o with
     | none => simp
     | some r =>
-      obtain ⟨hm, ho⟩ := recOf_mem hr
       by_cases hk : keep t.tid o = true
       · exfalso
-        have : r ∈ t.recs.filter (fun r => keep t.tid r.oid) := by
-          rw [List.mem_filter]; exact ⟨hm, by rw [ho]; exact hk⟩
-        rw [List.isEmpty_iff] at hemp
+        have : r ∈ (dedupLast t.recs).filter (fun r => keep t.tid r.oid) := by
+          rw [List.mem_filter]
+          exact ⟨recOf_mem_dedup hr, by rw [(recOf_mem hr).2]; exact hk⟩
         rw [hemp] at this
         simp at this
       · have : keep t.tid o = false := by simpa using hk
         simp [Option.filter, this]
-  · simp only [Option.bind_some, Txn.recOf]
-    rw [find?_oid_map_packRec, find?_filter_oid (keep t.tid)]
+  | some t' =>
+    obtain ⟨etid, _⟩ := copyPreTxn_some hc
+    unfold entry
+    simp only [Option.bind_some]
+    rw [copyPreTxn_recOf hc, etid]
     by_cases hk : keep t.tid o = true
     · simp only [hk, if_true]
-      cases hr : t.recs.find? (fun r => r.oid == o) with
-      | none => simp [Txn.recOf, hr]
-      | some r => simp [Txn.recOf, hr, Option.filter, hk, tagPack]
+      cases hr : t.recOf o with
+      | none => simp
+      | some r => simp [Option.filter, hk, tagPack]
     · have hk' : keep t.tid o = false := by simpa using hk
       simp only [hk', Bool.false_eq_true, if_false]
-      cases hr : t.recs.find? (fun r => r.oid == o) with
-      | none => simp [Txn.recOf, hr]
-      | some r => simp [Txn.recOf, hr, Option.filter, hk']
+      cases hr : t.recOf o with
+      | none => simp
+      | some r => simp [Option.filter, hk']
 
 /-- records of `o` after copyToPacktime: the kept ones, with back pointers resolved -/
 theorem recsOf_copyPre (keep : Tid → Oid → Bool) (pre : History) (o : Oid) :
@@ -95,17 +130,18 @@ theorem lastRec_copyPre {keep : Tid → Oid → Bool} {pre : History} {o : Oid} 
 
 theorem copyPre_tid {keep : Tid → Oid → Bool} {pre : History} {t' : Txn}
     (h : t' ∈ copyPre keep pre) : ∃ t ∈ pre, t'.tid = t.tid ∧ t'.packed = true ∧
-      t'.recs = (t.recs.filter (fun r => keep t.tid r.oid)).map packRec := by
+      t'.recs = ((dedupLast t.recs).filter (fun r => keep t.tid r.oid)).map packRec := by
   unfold copyPre at h
   rw [List.mem_filterMap] at h
   obtain ⟨t, ht, he⟩ := h
-  unfold copyPreTxn at he
-  simp only at he
-  split at he
-  · simp at he
-  · simp only [Option.some.injEq] at he
-    subst he
-    exact ⟨t, ht, rfl, rfl, rfl⟩
+  obtain ⟨e1, e2, _, _, e3, _⟩ := copyPreTxn_some he
+  exact ⟨t, ht, e1, e2, e3⟩
+
+theorem copyPre_mem {keep : Tid → Oid → Bool} {pre : History} {t' : Txn}
+    (h : t' ∈ copyPre keep pre) : ∃ t ∈ pre, copyPreTxn keep t = some t' := by
+  unfold copyPre at h
+  rw [List.mem_filterMap] at h
+  exact h
 
 theorem copyPre_le {keep : Tid → Oid → Bool} {pre : History} {T : Tid}
     (hle : ∀ t ∈ pre, t.tid ≤ T) : ∀ t' ∈ copyPre keep pre, t'.tid ≤ T := by
